@@ -127,4 +127,5 @@ func ZzC09MikeyRT() {
 	zzInputsUnmodified()
 	zzCover("all payloads", np == zzParam("NP", 2))
 	zzCover("crypto sessions", ncs == 2)
+	zzAssertMustFail(len(b) == 10, "twin: every message is a bare 10-byte header")
 }
